@@ -48,6 +48,9 @@ def run(ctx):
     ctx.rule("R12.k", "constructor model: Parameters._setup_params (with _instantiate_param) interpreted abstractly on 288 combinations of keywords x reference modes (plain value / reference with a value / reference without a value yet / asynchronous reference) x an unknown keyword: own copy of every instantiate=True default and pinned constants before any keyword is applied (and still there when a keyword assigns nothing), exactly the specified assignments, every reference and only references recorded", floor=1)
     ctx.rule("R12.u2", "update model (shared with R05.m): the transient Event mode that Parameters._update switches for the keys it assigns is switched on the instance's OWN Parameter objects "
                        "(`self_[name]`), never on the class-level ones shared with the other instances", floor=1)
+    ctx.rule("R12.j", "a constructor keyword does not change the class: the one validator that extends the Parameter it runs on (Selector._ensure_value_is_in_objects) must not run on the "
+                      "class-level Parameter -- composed from three facts of the source (the in-place append; per-instance copies only for initialised instances; keywords applied before the "
+                      "instance is marked initialised)", floor=1)
     ctx.rule("R12.h", "a shared (instantiate=False) default is not mutated from a constructor: in numbergen's _initialize_random_state every path to the in-place seeding of "
                       "self.random_generator passes a rebinding to a fresh private state (path conditions enumerated)", floor=1)
     ctx.rule("R12.i", "instance-copy model: ParameterizedFunction.instance called on an existing instance hands the constructor the source's value of EVERY parameter but its name (one "
@@ -293,6 +296,7 @@ def run(ctx):
     from checks import update_model
     update_model.report(ctx, "C12", "R12.u2")
     private_random_state_before_seeding(ctx, "R12.h")
+    constructor_value_extends_the_class(ctx, "R12.j")
     from checks import namespace_model
     namespace_model.report(ctx, "R12.q")
 
@@ -388,3 +392,37 @@ def private_random_state_before_seeding(ctx, rule):
                      input="class Jitter(UniformRandom): random_generator = random.Random(3); Jitter(seed=1); Jitter(seed=2) share (and reseed) the class-level state")
             return
     ctx.ok(rule, f, seeds[0], "every path to the in-place seeding of self.random_generator passes a rebinding to a fresh state (%d atom(s) enumerated)" % len(atoms))
+
+
+def constructor_value_extends_the_class(ctx, rule):
+    """Three facts of the source, composed:
+      (i)  a validator extends the Parameter it runs on: Selector._ensure_value_is_in_objects appends the offered value to
+           `self._objects` in place (check_on_set=False);
+      (ii) _instantiated_parameter hands out a per-instance copy only for an INITIALISED instance -- before that the
+           class-level Parameter governs (and validates) the assignment;
+      (iii) Parameterized.__init__ applies the constructor keywords (param._setup_params -> setattr) BEFORE it marks the
+           instance initialised.
+    Together: `P(s=<new value>)` appends the value to the CLASS's objects -- the class, its subclasses and every other instance
+    list and accept it.  The finding is reported while all three facts hold."""
+    sel = ctx.hier.resolve("param.parameters.Selector", "_ensure_value_is_in_objects")
+    ip = ctx.repo.func("param.parameterized._instantiated_parameter")
+    init = ctx.repo.func("param.parameterized.Parameterized.__init__")
+    if sel is None:
+        raise AnalysisError("%s: Selector._ensure_value_is_in_objects not found" % rule)
+    appends = [c for c in ast.walk(sel.node) if isinstance(c, ast.Call) and isinstance(c.func, ast.Attribute) and c.func.attr in ("append", "extend", "insert")
+               and isinstance(c.func.value, ast.Attribute) and norm(c.func.value.value) == sel.params[0]]
+    needs_init = any(isinstance(c, ast.Constant) and c.value == "initialized" for c in ast.walk(ip.node)) or any(isinstance(a, ast.Attribute) and a.attr == "initialized" for a in ast.walk(ip.node))
+    cfg = ctx.facts.cfg(init)
+    setups = [n for n in cfg.live_nodes() if n.kind != "br" and n.ast is not None and any(isinstance(c, ast.Call) and isinstance(c.func, ast.Attribute) and c.func.attr == "_setup_params" for c in ast.walk(n.ast))]
+    marks = [n for n in cfg.live_nodes() for t in stores_in(n) if isinstance(t, ast.Attribute) and t.attr == "initialized"]
+    ctx.require(setups and marks, "Parameterized.__init__ no longer calls _setup_params / marks the instance initialised")
+    before = all(not cfg.dominates(m, s) for m in marks for s in setups)        # no `initialized = True` on the way to the keyword loop
+    if appends and needs_init and before:
+        ctx.fail(rule, sel, appends[0], "`%s` runs on the CLASS-level Parameter when the value comes through the constructor: per-instance Parameter copies exist only once the instance is marked "
+                                        "initialised, which Parameterized.__init__ does after applying the keywords -- `P(s=<value outside the objects>)` on a Selector with check_on_set=False "
+                                        "extends the objects of the class, of its subclasses and of every other instance" % norm(appends[0])[:50],
+                 key="param.parameters.Selector._ensure_value_is_in_objects::extends-the-class-from-the-constructor",
+                 input="class P(Parameterized): s = Selector(objects=[1, 2], check_on_set=False); P(s=99) -> list(P.param.s.objects) == [1, 2, 99]")
+    else:
+        ctx.ok(rule, sel, sel.node, "a value given to the constructor cannot extend the class-level objects (%s)" % (
+            "no validator appends in place" if not appends else "per-instance copies do not depend on `initialized`" if not needs_init else "the instance is initialised before the keywords are applied"))
